@@ -30,7 +30,7 @@ type GOutcome struct {
 	Err     lua.LValue // error object
 	ErrText string
 	Panic   string // non-empty: a Go panic escaped DoString
-	Snaps   []string
+	Snaps   []Snap
 	Overrun string // non-empty: the run was stopped by the instruction or event budget
 	Polls   int64
 }
@@ -67,11 +67,11 @@ type GOpts struct {
 	Budget    int64
 	MaxEvents int
 	Options   lua.Options
-	Ctx      context.Context
-	Setup    func(L *lua.LState, out *GOutcome) // extra host functions
-	After    func(L *lua.LState, out *GOutcome)
-	Args     []lua.LValue
-	KeepOpen bool
+	Ctx       context.Context
+	Setup     func(L *lua.LState, out *GOutcome) // extra host functions
+	After     func(L *lua.LState, out *GOutcome)
+	Args      []lua.LValue
+	KeepOpen  bool
 }
 
 // RunGopher loads and runs src in a fresh state.
@@ -119,6 +119,13 @@ func RunGopher(src string, o *GOpts) (out *GOutcome) {
 			out.Overrun = fmt.Sprintf("more than %d trace events", o.MaxEvents)
 			bc.cancel()
 		}
+		return 0
+	}))
+	registerHost(L)
+	L.SetGlobal("snap", L.NewFunction(func(L *lua.LState) int {
+		label := L.OptString(1, "")
+		s := lua.VerifSnapshot(L)
+		out.Snaps = append(out.Snaps, Snap{Label: label, Thread: fmt.Sprintf("%p", L), S: s})
 		return 0
 	}))
 	if o != nil && o.Setup != nil {
@@ -442,4 +449,101 @@ func BudgetFor(r *ROutcome) *GOpts {
 		steps = int64(r.In.Steps)
 	}
 	return &GOpts{Budget: 400*steps + 3_000_000, MaxEvents: len(r.Trace) + 3}
+}
+
+// registerHost mirrors luaref's openHost.
+func registerHost(L *lua.LState) {
+	L.SetGlobal("hostf", L.NewFunction(func(L *lua.LState) int {
+		r := L.CheckInt(1)
+		n := L.GetTop() - 1
+		for i := 2; i <= n+1; i++ {
+			L.Push(L.Get(i)) // pushes more than it returns
+		}
+		if r < 0 {
+			r = 0
+		}
+		if r > n {
+			r = n
+		}
+		return r
+	}))
+	L.SetGlobal("hostcall", L.NewFunction(func(L *lua.LState) int {
+		n := L.GetTop()
+		L.CheckAny(1)
+		L.Call(n-1, lua.MultRet) // consumes the function and its arguments
+		return L.GetTop()
+	}))
+	L.SetGlobal("newud", L.NewFunction(func(L *lua.LState) int {
+		ud := L.NewUserData()
+		ud.Value = "verif"
+		if t, ok := L.Get(1).(*lua.LTable); ok {
+			L.SetMetatable(ud, t)
+		}
+		L.Push(ud)
+		return 1
+	}))
+	L.SetGlobal("hostpcall", L.NewFunction(func(L *lua.LState) int {
+		n := L.GetTop()
+		L.CheckAny(1)
+		if err := L.PCall(n-1, lua.MultRet, nil); err != nil {
+			L.SetTop(0)
+			L.Push(lua.LFalse)
+			if ae, ok := err.(*lua.ApiError); ok {
+				L.Push(ae.Object)
+			} else {
+				L.Push(lua.LString(err.Error()))
+			}
+			return 2
+		}
+		L.Insert(lua.LTrue, 1)
+		return L.GetTop()
+	}))
+	L.SetGlobal("hostraise", L.NewFunction(func(L *lua.LState) int {
+		L.RaiseError("host function failed")
+		return 0
+	}))
+	L.SetGlobal("hostpanic", L.NewFunction(func(L *lua.LState) int {
+		panic("host function panicked")
+	}))
+	L.SetGlobal("hostnilpanic", L.NewFunction(func(L *lua.LState) int {
+		var m map[string]int
+		m["x"] = 1 // Go run-time panic
+		return 0
+	}))
+}
+
+// Snap is one sample of the interpreter's internal state taken by the snap(label) host function.
+type Snap struct {
+	Label  string
+	Thread string
+	S      lua.VerifSnap
+}
+
+// CheckSnaps: samples with the same label taken in the same thread must agree on call depth, value-stack height,
+// frame, handler flag and the set of open upvalues; every open upvalue must lie below the registry top and the list
+// must be sorted.  Returns a description of the first violation.
+func CheckSnaps(snaps []Snap) string {
+	firstOf := map[string]Snap{}
+	for _, s := range snaps {
+		if !s.S.UpvaluesSorted {
+			return fmt.Sprintf("snap %s: open-upvalue list is not sorted: %v", s.Label, s.S.OpenUpvalues)
+		}
+		for _, u := range s.S.OpenUpvalues {
+			if u >= s.S.Top {
+				return fmt.Sprintf("snap %s: open upvalue at register %d at or above the registry top %d", s.Label, u, s.S.Top)
+			}
+		}
+		key := s.Thread + "/" + s.Label
+		f, ok := firstOf[key]
+		if !ok {
+			firstOf[key] = s
+			continue
+		}
+		delete(firstOf, key) // samples pair up: before, after, before, after, ...
+		a, b := f.S, s.S
+		if a.Sp != b.Sp || a.Top != b.Top || a.FrameIdx != b.FrameIdx || a.LocalBase != b.LocalBase || a.HasErrFunc != b.HasErrFunc || fmt.Sprint(a.OpenUpvalues) != fmt.Sprint(b.OpenUpvalues) {
+			return fmt.Sprintf("snap %s: state before %+v differs from state after %+v", s.Label, a, b)
+		}
+	}
+	return ""
 }
